@@ -6,7 +6,8 @@ import (
 )
 
 var hPointAndRangeKinds = []base.InternalKeyKind{hKSet, hKDel, hKMerge, hKSDel, hKRDel}
-var hAllKinds = []base.InternalKeyKind{hKSet, hKDel, hKMerge, hKSDel, hKDSized, hKRDel}
+var hAllKinds = []base.InternalKeyKind{hKSet, hKDel, hKMerge, hKSDel, hKDSized, hKRDel, hKSetDel}
+var hCompactedKinds = []base.InternalKeyKind{hKSetDel, hKMerge, hKSDel, hKDel}
 
 // hReads: a commit-ordered history placed into levels in a way the LSM
 // invariant allows reads back - full scans in both directions and seeks to
@@ -62,5 +63,8 @@ func hReads(N, L int, kinds []base.InternalKeyKind) {
 }
 
 func VerifHarness_C01_Reads() { hReads(3, 2, hPointAndRangeKinds) }
+
+// the kinds compactions leave behind (SETWITHDEL) under newer merges and deletes
+func VerifHarness_C01_ReadsCompactedKinds() { hReads(3, 2, hCompactedKinds) }
 
 func VerifHarness_C01_Reads_Thorough() { hReads(4, 3, hAllKinds) }
